@@ -133,6 +133,8 @@ fn run_driver<E: Engine>(e: &E, tier: Tier) -> i32 {
     let hard = start + std::time::Duration::from_secs(soft + 240);
     let mut total = WorkerReport { first_index: u64::MAX, ..Default::default() };
     let mut harness_errors: Vec<String> = vec![];
+    // (replay path, kind, description) of scenarios whose OS process hung or died
+    let mut abnormal: Vec<(String, String, String)> = vec![];
     for (w, out, mut child) in children {
         let status = loop {
             match child.try_wait() {
@@ -164,7 +166,21 @@ fn run_driver<E: Engine>(e: &E, tier: Tier) -> i32 {
                 }
                 None => harness_errors.push(format!("worker {} produced no readable report", w)),
             },
-            Some(s) => harness_errors.push(format!("worker {} died ({}) while executing scenario index {}", w, s, progress.trim())),
+            Some(s) if s.code() == Some(3) => {
+                // a simulated process hung; the worker wrote the replay file and left
+                let path = std::fs::read_to_string(format!("{}.progress.hang", out)).unwrap_or_default();
+                abnormal.push((path, "hang".to_string(), format!("worker {}: a simulated process hung in scenario index {}", w, progress.trim())));
+            }
+            Some(s) => {
+                // died without a word: the scenario it was executing is in <out>.progress.current
+                let dir = format!("{}/replays", out_dir());
+                let _ = std::fs::create_dir_all(&dir);
+                let path = format!("{}/{}-{}-{}-died.json", dir, e.property(), seed, progress.trim());
+                match std::fs::copy(format!("{}.progress.current", out), &path) {
+                    Ok(_) => abnormal.push((path, "process_died".to_string(), format!("worker {} died ({}) while executing scenario index {}", w, s, progress.trim()))),
+                    Err(_) => harness_errors.push(format!("worker {} died ({}) while executing scenario index {}", w, s, progress.trim())),
+                }
+            }
             None => harness_errors.push(format!("worker {} exceeded the hard watchdog while executing scenario index {}", w, progress.trim())),
         }
     }
@@ -196,6 +212,17 @@ fn run_driver<E: Engine>(e: &E, tier: Tier) -> i32 {
             new_violations.push((path.clone(), v.clone()));
         }
     }
+    for (path, kind, what) in &abnormal {
+        if e.hang_or_death_is_violation() {
+            // one report per kind is enough (each replay costs a full time-out to re-verify)
+            if new_violations.iter().any(|(_, v)| v.kind == *kind) {
+                continue;
+            }
+            new_violations.push((path.clone(), Violation { kind: kind.clone(), signature: kind.clone(), detail: what.clone() }));
+        } else {
+            harness_errors.push(format!("{} (replay {})", what, path));
+        }
+    }
     let wall = start.elapsed().as_secs_f64();
     let ev = evidence_json(e, tier, seed, &total, wall, nw, new_violations.len(), known_seen);
     let _ = std::fs::create_dir_all(format!("{}/evidence", out_dir()));
@@ -212,10 +239,12 @@ fn run_driver<E: Engine>(e: &E, tier: Tier) -> i32 {
         wall
     );
     // Every reported replay file is re-executed in a fresh OS process and must reproduce.
-    for (path, _) in &new_violations {
+    for (path, v) in &new_violations {
         let st = Command::new(&exe).args(["replay", path]).stdout(Stdio::null()).stderr(Stdio::null()).status();
         match st {
             Ok(s) if s.code() == Some(EXIT_VIOLATION) => {}
+            // a scenario that kills its process does so again (no exit code: signal; 101/134: panic/abort)
+            Ok(s) if v.kind == "process_died" && s.code() != Some(EXIT_OK) && s.code() != Some(EXIT_HARNESS) => {}
             other => harness_errors.push(format!("replay of {} in a fresh process did not reproduce ({:?})", path, other.map(|s| s.code()))),
         }
     }
@@ -260,13 +289,83 @@ thread_local! {
     pub static PROGRESS_PATH: std::cell::RefCell<Option<String>> = const { std::cell::RefCell::new(None) };
 }
 
-/// Called by run_worker before each scenario so that a dying worker names its seed.
+/// What this OS process is executing right now (so that a hang or a death can be attributed).
+pub struct Current {
+    pub property: String,
+    pub engine: String,
+    pub base_seed: u64,
+    pub index: u64,
+    pub scenario_seed: u64,
+    pub scenario: Value,
+    pub replay_mode: bool,
+}
+
+pub static CURRENT: std::sync::Mutex<Option<Current>> = std::sync::Mutex::new(None);
+
+/// Called by run_worker before each scenario so that a dying or hanging worker names its scenario.
 pub fn note_progress(index: u64) {
     PROGRESS_PATH.with(|p| {
         if let Some(path) = p.borrow().as_ref() {
             let _ = std::fs::write(path, index.to_string());
         }
     });
+}
+
+pub fn note_current(c: Current) {
+    PROGRESS_PATH.with(|p| {
+        if let Some(path) = p.borrow().as_ref() {
+            // the scenario itself, for the driver, should this process die without a word
+            let rf = replay_for(&c, "process_died", "the OS process executing this scenario died (abort, stack overflow or signal)");
+            let _ = std::fs::write(format!("{}.current", path), serde_json::to_string(&rf).unwrap_or_default());
+        }
+    });
+    *CURRENT.lock().unwrap_or_else(|e| e.into_inner()) = Some(c);
+}
+
+fn replay_for(c: &Current, kind: &str, what: &str) -> ReplayFile {
+    ReplayFile {
+        property: c.property.clone(),
+        engine: c.engine.clone(),
+        base_seed: c.base_seed,
+        index: c.index,
+        scenario_seed: c.scenario_seed,
+        minimised: false,
+        shrink_steps: 0,
+        original_size: 0,
+        minimised_size: 0,
+        violation: Violation { kind: kind.to_string(), signature: kind.to_string(), detail: format!("scenario index {} (seed {}): {}", c.index, c.scenario_seed, what) },
+        scenario: c.scenario.clone(),
+    }
+}
+
+/// A simulated process did not finish: report it with the scenario and leave (the thread cannot be killed).
+pub fn on_simulated_process_hang() -> ! {
+    let cur = CURRENT.lock().unwrap_or_else(|e| e.into_inner()).take();
+    match cur {
+        Some(c) if c.replay_mode => {
+            println!("VIOLATION property={} replay=(reproduced)\n  kind=hang signature=hang\n  a simulated process did not finish within {} s", c.property, proc::SIM_PROCESS_TIMEOUT.as_secs());
+            let _ = std::io::stdout().flush();
+            std::process::exit(EXIT_VIOLATION);
+        }
+        Some(c) => {
+            let rf = replay_for(&c, "hang", &format!("a simulated process did not finish within {} s of real time (it normally takes ~0.1 ms)", proc::SIM_PROCESS_TIMEOUT.as_secs()));
+            let dir = format!("{}/replays", out_dir());
+            let _ = std::fs::create_dir_all(&dir);
+            let path = format!("{}/{}-{}-{}-hang.json", dir, c.property, c.base_seed, c.index);
+            let _ = std::fs::write(&path, serde_json::to_string_pretty(&rf).unwrap_or_default());
+            PROGRESS_PATH.with(|p| {
+                if let Some(pp) = p.borrow().as_ref() {
+                    let _ = std::fs::write(format!("{}.hang", pp), &path);
+                }
+            });
+            std::process::exit(3);
+        }
+        None => {
+            println!("HARNESS-ERROR a simulated process hung outside any scenario");
+            let _ = std::io::stdout().flush();
+            std::process::exit(EXIT_HARNESS);
+        }
+    }
 }
 
 fn replay<E: Engine>(e: &E, rf: &ReplayFile) -> i32 {
@@ -277,6 +376,7 @@ fn replay<E: Engine>(e: &E, rf: &ReplayFile) -> i32 {
             return EXIT_HARNESS;
         }
     };
+    *CURRENT.lock().unwrap_or_else(|e| e.into_inner()) = Some(Current { property: rf.property.clone(), engine: rf.engine.clone(), base_seed: rf.base_seed, index: rf.index, scenario_seed: rf.scenario_seed, scenario: rf.scenario.clone(), replay_mode: true });
     let mut st = Stats::default();
     let out = e.execute(&sc, &mut st);
     println!("replay: property={} engine={} base_seed={} index={} digest={:016x}", rf.property, rf.engine, rf.base_seed, rf.index, out.digest);
